@@ -1,4 +1,5 @@
 import Hertz.Proofs.Args
+import Hertz.Proofs.ArgsStd
 import Hertz.Proofs.UriRt
 import Hertz.Proofs.CookieRt
 import Hertz.Driver.C17u
@@ -19,9 +20,20 @@ theorems for all inputs:
   Go's `int` range) that has a key, a value or at least one attribute, `ParseBytes(AppendBytes(c)) = c` on all nine modelled
   fields.  `cookie_roundtrip_fails_at`: the entirely empty cookie is written as the empty string, which `ParseBytes` rejects
   (`errNoCookies`) - the excluded case.
+* `args_agree_std`: for every byte string that Go's `url.ParseQuery` accepts (`Spec/UrlQuery.lean`: `stdParse`, a model of
+  `parseQuery`/`QueryUnescape` written after the Go source and compared with the real `net/url` on every `argsstd` case of
+  the correspondence check), hertz's `Args.ParseBytes` yields exactly the same (key, value) pairs in the same order, the
+  pairs with both key and value empty excepted (hertz drops them by design; `args_agree_std_needs_filter`).  What `net/url`
+  accepts is spelled out (`std_accepts_iff`: no `;` anywhere, every `%` followed by two hex digits), so the statement is also
+  given with these two explicit hypotheses (`args_agree_std_explicit`); outside them `net/url` returns an error while hertz
+  keeps the bytes literally (`args_outside_std`), which is not a disagreement on accepted input.  `args_parse_fixed_point`:
+  `parse(serialise(parse b)) = parse b` for all `b` (the `argsfix` check).
 
-TODO-OPEN (not Lean theorems): `args_agree_std` (agreement with `net/url`, checked per case); cookie `expires` (Go's time
-formatting and parsing, compared on the Go side); URIs with user-info (`username`/`password` are parsed but never written by
+TODO-OPEN (not Lean theorems): `args_agree_std` is now proved against `stdParse`; that `stdParse` is what the real
+`url.ParseQuery`/`url.QueryUnescape` compute rests on the correspondence check (op `argsstd`: the model's output is diffed with
+net/url's on every case, incl. all strings of up to 3 hostile tokens), not on a proof, and the `noValue` flag of hertz's
+entries has no counterpart in `net/url` (only `args_parse_wf` is stated about it).  Cookie `expires` (Go's time formatting
+and parsing, compared on the Go side); URIs with user-info (`username`/`password` are parsed but never written by
 `FullURI`, so they are outside the round trip) and relative parsing with a separate `Host` argument (`parse host uri` with
 `host ≠ []`) are covered by the correspondence check only.
 
@@ -54,6 +66,66 @@ theorem path_decode_quote (p : Bytes) : decodeArgNoPlus (quotePath p) = p := dec
 /-- non-vacuity: a hostile two-entry list meets the hypothesis and round-trips. -/
 example : parseArgs (appendArgs [⟨[97, 38, 61], [37, 32, 43], false⟩, ⟨[107], [], true⟩])
     = [⟨[97, 38, 61], [37, 32, 43], false⟩, ⟨[107], [], true⟩] := by decide +kernel
+
+/-! ### agreement with `net/url` -/
+
+open Hertz.Spec.UrlQuery in
+/-- `args_agree_std`: for every byte string `s` that `url.ParseQuery` accepts, with `l` the pairs it yields in wire order,
+hertz's `Args.ParseBytes(s)` yields exactly `l` as (key, value) pairs in the same order - the entries with both key and
+value empty excepted (a segment `=`; `net/url` keeps `"" = ""`, hertz drops it by design: the same exemption as in
+`args_roundtrip`, and the one the driver's `argsstd` comparison makes with `dropEmpty`).  No other difference is tolerated. -/
+theorem args_agree_std (s : Bytes) (l : List (Bytes × Bytes)) (h : stdParse s = some l) :
+    (parseArgs s).map ArgKV.pair = l.filter pairNonEmpty :=
+  parseArgs_agree_stdParse s l h
+
+open Hertz.Spec.UrlQuery in
+/-- What "`net/url` accepts" means, for all inputs: `url.ParseQuery(s)` returns no error iff `s` contains no `;` and every
+`%` in `s` is followed by two hex digits (`stdAccepts s = !s.contains 59 && escapesOk s`). -/
+theorem std_accepts_iff (s : Bytes) : (stdParse s).isSome = stdAccepts s := stdParse_isSome_iff s
+
+open Hertz.Spec.UrlQuery in
+/-- `args_agree_std` with the excluded region spelled out instead of "`net/url` accepts": if `s` has no `;` and no
+malformed escape, `url.ParseQuery` accepts it and hertz's parse is its result without the empty/empty pairs. -/
+theorem args_agree_std_explicit (s : Bytes) (h59 : s.contains 59 = false) (hesc : escapesOk s = true) :
+    ∃ l, stdParse s = some l ∧ (parseArgs s).map ArgKV.pair = l.filter pairNonEmpty :=
+  parseArgs_agree_explicit s h59 hesc
+
+open Hertz.Spec.UrlQuery in
+set_option maxRecDepth 100000 in
+/-- The exemption cannot be dropped: on `=` `net/url` yields one pair `("", "")`, hertz yields nothing. -/
+theorem args_agree_std_needs_filter :
+    stdParse [61] = some [([], [])] ∧ ¬ (parseArgs [61]).map ArgKV.pair = [([], [])] := by decide +kernel
+
+open Hertz.Spec.UrlQuery in
+set_option maxRecDepth 100000 in
+/-- Outside the hypothesis: on `a;b` and on `%zz=1` `url.ParseQuery` returns an error (so there is nothing to agree with),
+while hertz keeps the bytes literally - `a;b` without value, and `%zz` = `1`. -/
+theorem args_outside_std :
+    stdParse [97, 59, 98] = none ∧ parseArgs [97, 59, 98] = [⟨[97, 59, 98], [], true⟩] ∧
+    stdParse [37, 122, 122, 61, 49] = none ∧ parseArgs [37, 122, 122, 61, 49] = [⟨[37, 122, 122], [49], false⟩] := by
+  decide +kernel
+
+open Hertz.Spec.UrlQuery in
+set_option maxRecDepth 100000 in
+/-- non-vacuity: `a+b=%41%2b&&=&k&x=&%3d==` has no `;` and only well-formed escapes; `net/url` yields
+`("a b","A+") ("","") ("k","") ("x","") ("=","=")`, hertz the same without `("","")`. -/
+example :
+    let s : Bytes := [97, 43, 98, 61, 37, 52, 49, 37, 50, 98, 38, 38, 61, 38, 107, 38, 120, 61, 38, 37, 51, 100, 61, 61]
+    s.contains 59 = false ∧ escapesOk s = true ∧
+    stdParse s = some [([97, 32, 98], [65, 43]), ([], []), ([107], []), ([120], []), ([61], [61])] ∧
+    (parseArgs s).map ArgKV.pair = [([97, 32, 98], [65, 43]), ([107], []), ([120], []), ([61], [61])] := by
+  decide +kernel
+
+/-- Every entry that `Args.ParseBytes` flags "no value" has an empty value - the hypothesis of `args_roundtrip` holds of
+every parsed list. -/
+theorem args_parse_wf (s : Bytes) : ∀ kv ∈ parseArgs s, kv.noValue = true → kv.value = [] := parseArgs_wf s
+
+/-- Serialising a parsed list and parsing again gives the same list, for every input (the `argsfix` check). -/
+theorem args_parse_fixed_point (s : Bytes) : parseArgs (appendArgs (parseArgs s)) = parseArgs s :=
+  parseArgs_fixed_point s
+
+/-- non-vacuity: `k&a=` parses to an entry without value and one with an empty value. -/
+example : parseArgs [107, 38, 97, 61] = [⟨[107], [], true⟩, ⟨[97], [], false⟩] := by decide +kernel
 
 /-! ### URI round trip -/
 
